@@ -134,6 +134,32 @@ func main() {
 	}
 	start := time.Now()
 	deadline := start.Add(*budget)
+	// watchdog: an execution of these tiny drivers takes microseconds; one that
+	// makes no progress for 60 s of wall-clock time is a non-terminating run
+	go func() {
+		last, lastAt := int64(-1), time.Now()
+		for {
+			time.Sleep(2 * time.Second)
+			cur := core.ExecutionsStarted()
+			if cur != last {
+				last, lastAt = cur, time.Now()
+				continue
+			}
+			if time.Since(lastAt) > 60*time.Second {
+				name := core.CurrentExploration()
+				rep := &Report{Property: p.ID, Tier: *tier, Shard: *shard, NShards: *nshards, ScenariosTotal: len(scs), ByCost: map[string]int64{}, Outcomes: map[string]int64{},
+					Capped: true, CapReasons: []string{"watchdog"}, Executions: cur,
+					Violations: []ViolationOut{{Scenario: name, Tier: *tier, Msgs: []string{"an execution did not terminate (no progress for 60 s): livelock or unbounded loop in scenario " + name}, Sig: name + " :: non-termination"}}}
+				b, _ := json.Marshal(rep)
+				if *out != "" {
+					os.WriteFile(*out, b, 0o644)
+				} else {
+					os.Stdout.Write(b)
+				}
+				os.Exit(0)
+			}
+		}
+	}()
 	rep := &Report{Property: p.ID, Tier: *tier, Shard: *shard, NShards: *nshards, ScenariosTotal: len(scs), ByCost: map[string]int64{}, Outcomes: map[string]int64{}}
 	for i := range scs {
 		if *claimDir != "" {
